@@ -218,6 +218,7 @@ def _changepoint(prog, cp):
         ok_idiom = (len(aug) == 1 and len(app) == 1 and len(init) == 1 and ast.unparse(init[0].value) == "[1.0]"
                     and lp.body.index(aug[0]) < lp.body.index(app[0]))
         ex = Expander(prog, cp.module, cp)
+        ex.scalar_names = {"theta[slc][0]", "theta[slc][1]"}
         ex.ctor_methods = ("__init__", "pass_spatial_data")
         ex.opaque_self_attrs = {"axis", "cp_slc", "cov_slc", "cov", "n_kernels"}
         env = {"theta": R.sym("theta")}
@@ -256,6 +257,7 @@ def _changepoint(prog, cp):
     # the weight is the logistic of the change-point axis with (location, width) = theta[slc]; (1-w)(1-w) and w w
     A, B = ref[0], ref[1]
     ex = Expander(prog, cp.module, cp)
+    ex.scalar_names = {"theta[slc][0]", "theta[slc][1]"}
     lg = cp.methods["logistic"]
     ok = False
     try:
